@@ -295,7 +295,17 @@ fn violation(rule: Rule, rng: &mut Rng, cap: &str) -> (Vec<GStmt>, &'static str,
                 _ => GExpr::Null,
             };
             let k = if rng.chance(1, 2) { CondKind::Some } else { CondKind::None };
-            if rng.chance(1, 3) {
+            if rng.chance(1, 4) {
+                // not the first clause of the arm, in an elif
+                (
+                    vec![s(StmtKind::If(vec![
+                        GIfArm { conds: vec![cond(CondKind::Bool, GExpr::False)], stmts: vec![], loc: Loc::default() },
+                        GIfArm { conds: vec![cond(CondKind::Bool, GExpr::True), cond(CondKind::Bool, GExpr::call("not", vec![GExpr::False])), cond(k, v)], stmts: vec![], loc: Loc::default() },
+                    ]))],
+                    "third_clause_of_elif",
+                    false,
+                )
+            } else if rng.chance(1, 3) {
                 (vec![let_("zq_l", v), if_(cond(k, GExpr::var("zq_l")), vec![])], "via_let", false)
             } else {
                 (vec![if_(cond(k, v), vec![])], "direct", false)
@@ -469,13 +479,24 @@ impl Prop for C06 {
                     }
                 }
                 if *rule == Rule::UnusedCapture {
-                    let q = *rng.pick(&["(identifier) @zq_unused", "(call function: (_) @zq_f arguments: (_) @zq_unused)", "(identifier) @zq_unused @_fine"]);
-                    let mut body = vec![s(StmtKind::Node(GVar::u("zq_n")))];
-                    if q.contains("@zq_f") {
-                        body.push(print_(GExpr::cap("zq_f")));
+                    if rng.chance(1, 2) {
+                        // a capture name that an EARLIER stanza uses, unused in a copy of that
+                        // stanza's query placed after it
+                        let sts = f.stanzas();
+                        let k = rng.below(sts.len());
+                        let q = sts[k].query.clone();
+                        let pos = f.items.iter().enumerate().filter(|(_, it)| matches!(it, Item::Stanza(_))).nth(k).map(|(i, _)| i).unwrap_or(0);
+                        let at = rng.range(pos + 1, f.items.len());
+                        f.items.insert(at, Item::Stanza(GStanza { query: q, pool: None, stmts: vec![s(StmtKind::Node(GVar::u("zq_n")))], loc: Loc::default() }));
+                    } else {
+                        let q = *rng.pick(&["(identifier) @zq_unused", "(call function: (_) @zq_f arguments: (_) @zq_unused)", "(identifier) @zq_unused @_fine"]);
+                        let mut body = vec![s(StmtKind::Node(GVar::u("zq_n")))];
+                        if q.contains("@zq_f") {
+                            body.push(print_(GExpr::cap("zq_f")));
+                        }
+                        let at = rng.below(f.items.len() + 1);
+                        f.items.insert(at, Item::Stanza(GStanza { query: q.into(), pool: None, stmts: body, loc: Loc::default() }));
                     }
-                    let at = rng.below(f.items.len() + 1);
-                    f.items.insert(at, Item::Stanza(GStanza { query: q.into(), pool: None, stmts: body, loc: Loc::default() }));
                 } else if !stmts.is_empty() {
                     let n = stmts.len();
                     let mut stmts = Some(stmts);
